@@ -55,6 +55,7 @@ import (
 	graphdb "github.com/lightningnetwork/lnd/graph/db"
 	"github.com/lightningnetwork/lnd/graph/db/models"
 	"github.com/lightningnetwork/lnd/input"
+	"github.com/lightningnetwork/lnd/kvdb"
 	"github.com/lightningnetwork/lnd/lnwallet/btcwallet"
 	"github.com/lightningnetwork/lnd/lnwire"
 	"github.com/lightningnetwork/lnd/routing/chainview"
@@ -510,7 +511,7 @@ func (h *c20) runCase(o c20CaseOpts, body func(cs *c20Case)) {
 			h: h, tc: tc, mids: map[string]int{}, scids: map[uint64]bool{},
 			peers: map[int]*mockPeer{}, notif: tc.notifier, assume: o.assumeValid,
 		}
-		cs.g = graphdb.MakeTestGraph(t)
+		cs.g = c20MakeGraph(t, h.n%2 == 0)
 		cs.vg = graphdb.NewVersionedGraph(cs.g, lnwire.GossipVersion1)
 		var self route.Vertex
 		copy(self[:], selfKeyPriv.PubKey().SerializeCompressed())
@@ -550,6 +551,35 @@ func (h *c20) runCase(o c20CaseOpts, body func(cs *c20Case)) {
 		h.pf("END")
 		h.w.Flush()
 	})
+}
+
+// c20MakeGraph is graphdb.MakeTestGraph; with smallCaches and the bbolt store the
+// store's reject/channel caches hold a single entry, so freshness decisions
+// regularly have to be recomputed from the database.
+func c20MakeGraph(t *testing.T, smallCaches bool) *graphdb.ChannelGraph {
+	store := graphdb.NewTestDB(t)
+	if _, isKV := store.(*graphdb.KVStore); isKV && smallCaches {
+		backend, cleanup, err := kvdb.GetTestBackend(t.TempDir(), "cgr2")
+		if err != nil {
+			t.Fatalf("backend: %v", err)
+		}
+		t.Cleanup(cleanup)
+		kv, err := graphdb.NewKVStore(backend, graphdb.WithRejectCacheSize(1),
+			graphdb.WithChannelCacheSize(1))
+		if err != nil {
+			t.Fatalf("kv store: %v", err)
+		}
+		store = kv
+	}
+	g, err := graphdb.NewChannelGraph(store, graphdb.WithSyncGraphCachePopulation())
+	if err != nil {
+		t.Fatalf("graph: %v", err)
+	}
+	if err := g.Start(); err != nil {
+		t.Fatalf("graph start: %v", err)
+	}
+	t.Cleanup(func() { _ = g.Stop() })
+	return g
 }
 
 const c20Rebroadcast = 24 * time.Hour
@@ -1055,7 +1085,7 @@ type c20Upd struct {
 }
 
 func c20DefaultUpd(ts uint32, dir uint8) c20Upd {
-	return c20Upd{ts: ts, mf: 1, cf: dir, tld: 40, min: 1000, max: 500_000_000, base: 1000, rate: 1}
+	return c20Upd{ts: ts, mf: 1, cf: dir, tld: 40, min: 1000, max: 200_000_000, base: 1000, rate: 1}
 }
 
 func (h *c20) mkCU(scid lnwire.ShortChannelID, u c20Upd, signer int) *lnwire.ChannelUpdate1 {
@@ -1714,6 +1744,57 @@ func (h *c20) caseFuture(variant int) {
 	})
 }
 
+// caseCacheMiss: stale / equal / newer updates for one channel interleaved with
+// traffic for another one, so that (with single-entry store caches) every
+// freshness decision is recomputed from the database.
+func (h *c20) caseCacheMiss(variant int) {
+	a, b := h.stdChan(variant), h.stdChan(variant+1)
+	h.runCase(c20CaseOpts{kind: "cache-miss"}, func(cs *c20Case) {
+		cs.goodChain(a)
+		cs.goodChain(b)
+		cs.submit(1, h.mkCA(a))
+		cs.submit(1, h.mkCA(b))
+		t0 := cs.nowSec() - 4000
+		touch := func(i uint32) {
+			u := c20DefaultUpd(t0+i, uint8(i%2))
+			u.base = 50 + i
+			signer := b.n1
+			if i%2 == 1 {
+				signer = b.n2
+			}
+			cs.submit(2, h.mkCU(b.scid, u, signer))
+		}
+		send := func(ts uint32, dir uint8, base uint32) {
+			u := c20DefaultUpd(ts, dir)
+			u.base = base
+			signer := a.n1
+			if dir == 1 {
+				signer = a.n2
+			}
+			cs.submit(3, h.mkCU(a.scid, u, signer))
+		}
+		send(t0+100, 0, 1)
+		send(t0+200, 1, 2)
+		touch(1)
+		send(t0+150, 1, 3) // stale for direction 1 (but newer than direction 0)
+		touch(2)
+		send(t0+200, 1, 4) // equal
+		touch(3)
+		send(t0+50, 0, 5) // stale for direction 0
+		touch(4)
+		send(t0+100, 0, 6) // equal
+		touch(5)
+		send(t0+201, 1, 7) // newer
+		touch(6)
+		send(t0+101, 0, 8) // newer
+		na := h.mkNA(a.n1, t0, 0)
+		cs.submit(3, na)
+		touch(7)
+		cs.submit(3, h.mkNA(a.n1, t0-1, 1))
+		cs.submit(3, h.mkNA(a.n1, t0, 2))
+	})
+}
+
 // caseMisc: own-channel announcement, AssumeChannelValid.
 func (h *c20) caseOwn() {
 	h.runCase(c20CaseOpts{kind: "own"}, func(cs *c20Case) {
@@ -1919,6 +2000,9 @@ func TestVerifC20(t *testing.T) {
 	}
 	for v := 0; v < rep(3, 6); v++ {
 		h.caseFuture(v)
+	}
+	for v := 0; v < rep(2, 6); v++ {
+		h.caseCacheMiss(v)
 	}
 	h.caseOwn()
 	for v := 0; v < rep(2, 3); v++ {
